@@ -372,7 +372,13 @@ def run_ops(c):
     # the maximum is exercised with data of any sign (all-negative, mixed, shifted), the mean with non-negative data
     sgn = [1.0, -1.0, 1.0, -1.0][c["seed"] % 4]
     mvals = sgn * (vals + (c["seed"] % 3)) if c["seed"] % 4 < 2 else np.random.RandomState(c["seed"] + 1).normal(size=n) - (c["seed"] % 5)
+    # ... and the mean of values held in a narrow / unsigned / boolean type (labels, masks, discretised distances): every
+    # value fits the type, a rank's sum of them need not
+    idt = ["uint8", "int16", "bool", "int8", "uint16"][c["seed"] % 5]
+    top = {"uint8": 250, "int16": 32000, "bool": 1, "int8": 120, "uint16": 65000}[idt]
+    ivals = np.random.RandomState(c["seed"] + 7).randint(top // 2, top + 1, size=n).astype(idt)
     starts = np.concatenate([[0], np.cumsum(lengths)]).astype(int)
+    IV = [ivals[starts[i]:starts[i + 1]] for i in range(len(lengths))]
     V = [vals[starts[i]:starts[i + 1]] for i in range(len(lengths))]
     MV = [mvals[starts[i]:starts[i + 1]] for i in range(len(lengths))]
     g = c["frame"] % n
@@ -386,6 +392,7 @@ def run_ops(c):
         out["lengths"] = ops.assemble_striped_array(lengths[rank::size].copy())
         out["max"] = ops.striped_array_max(np.concatenate(MV[rank::size]))
         out["mean"] = ops.striped_array_mean(lv)
+        out["imean"] = float(ops.striped_array_mean(np.concatenate(IV[rank::size])))
         out["ragged"] = ops.assemble_striped_ragged_array(lv.copy(), lengths)
         loc = local_of(trajs, rank, size)
         before = loc.copy()
@@ -406,6 +413,9 @@ def run_ops(c):
         require(o["max"] == mvals.max(), "striped_array_max != serial max", rank=rank, got=o["max"], want=mvals.max())
         require(abs(o["mean"] - vals.mean()) <= 1e-12 * (1 + abs(vals.mean())), "striped_array_mean != serial mean",
                 rank=rank, got=o["mean"], want=vals.mean())
+        want_im = float(ivals.astype(np.float64).mean())
+        require(abs(o["imean"] - want_im) <= 1e-12 * (1 + abs(want_im)), "striped_array_mean of %s values != serial mean" % idt,
+                rank=rank, got=o["imean"], want=want_im, n=n)
         require(np.array_equal(np.asarray(o["ragged"]), vals), "assemble_striped_ragged_array != serial order", rank=rank,
                 got=np.asarray(o["ragged"]).tolist(), want=vals.tolist())
         require(np.array_equal(o["frame"], X[g]), "distribute_frame did not deliver the owner's frame", rank=rank)
